@@ -293,6 +293,9 @@ def run(rep, facts, tier):
     # ------------------------------------------------------------ R02.15 = R04.13 (borrowed below); R02.16 (mutants deleting irrelevant_changes_up_to / its body survived C01-C04)
     rule_unavailability_applied(rep, fx, 'R02.16')
     rule_handler_admission(rep, fx, 'R02.21')
+    # R02.24 (mutation triage: every one-token mutant of the reader selection for submessages with reader id UNKNOWN survived all checks)
+    from rules import dispatch
+    dispatch.run_rule(rep, fx, 'R02.24', 'default', floor=1)
 
 
 
